@@ -6,7 +6,10 @@ use serde::{Deserialize, Serialize};
 use serde_json::{json, Value};
 
 pub const DEFAULT_SEED: u64 = 20260928;
-pub const VERIF_DIR: &str = "/verif";
+/// Root of the verification tree (normally /verif; a snapshot when started by `vp run`).
+pub fn verif_dir() -> String {
+    std::env::var("VERIF_ROOT").unwrap_or_else(|_| "/verif".to_string())
+}
 
 pub fn verif_seed() -> u64 {
     match std::env::var("VERIF_SEED") {
@@ -52,7 +55,7 @@ pub fn workers() -> usize {
 /// A private scratch directory for this process tree, in memory when possible.
 pub fn make_scratch(tag: &str) -> PathBuf {
     let pid = std::process::id();
-    for base in ["/dev/shm", "/verif/target/scratch"] {
+    for base in ["/dev/shm".to_string(), format!("{}/target/scratch", verif_dir())] {
         let p = PathBuf::from(base).join(format!("fqv-{}-{}", tag, pid));
         if std::fs::create_dir_all(&p).is_ok() {
             return p;
@@ -62,7 +65,7 @@ pub fn make_scratch(tag: &str) -> PathBuf {
 }
 
 pub fn write_evidence(id: &str, v: &Value) -> Result<PathBuf, String> {
-    let dir = Path::new(VERIF_DIR).join("evidence");
+    let dir = Path::new(&verif_dir()).join("evidence");
     std::fs::create_dir_all(&dir).map_err(|e| e.to_string())?;
     let p = dir.join(format!("{}.json", id));
     let tmp = dir.join(format!(".{}.json.tmp", id));
@@ -73,7 +76,7 @@ pub fn write_evidence(id: &str, v: &Value) -> Result<PathBuf, String> {
 }
 
 pub fn write_replay(id: &str, name: &str, v: &Value) -> Result<PathBuf, String> {
-    let dir = Path::new(VERIF_DIR).join("replays");
+    let dir = Path::new(&verif_dir()).join("replays");
     std::fs::create_dir_all(&dir).map_err(|e| e.to_string())?;
     let p = dir.join(format!("{}-{}.json", id, name));
     let s = serde_json::to_string_pretty(v).map_err(|e| e.to_string())?;
@@ -107,7 +110,7 @@ pub struct KnownFindings {
 
 impl KnownFindings {
     pub fn load() -> KnownFindings {
-        let p = Path::new(VERIF_DIR).join("known_findings.json");
+        let p = Path::new(&verif_dir()).join("known_findings.json");
         match std::fs::read_to_string(&p) {
             Ok(s) => serde_json::from_str(&s).unwrap_or_else(|e| {
                 eprintln!("harness error: {} does not parse: {}", p.display(), e);
